@@ -215,15 +215,25 @@ def coqchk(ctx, module):
 
 # ---------------------------------------------------------------------------------------------- drivers
 
-def run_lines(binpath, lines, args=(), timeout=3600, env=None):
+class _Partial:
+    def __init__(s, out): s.stdout = out; s.stderr = 'timeout'; s.returncode = 124
+
+
+def run_lines(binpath, lines, args=(), timeout=None, env=None):
+    # a driver that never comes back (a call that hangs) yields the answers it gave so far; the callers treat missing answers
+    # as "stopped after k operations".  Deadline: 5 minutes in the quick tier, an hour otherwise, unless the caller says.
+    if timeout is None: timeout = 300 if os.environ.get('VERIF_TIER_EFFECTIVE', 'quick') == 'quick' else 3600
     inp = '\n'.join(lines) + '\n'
-    r = sh([binpath] + list(args), inp=inp, timeout=timeout, env=env)
+    try: r = sh([binpath] + list(args), inp=inp, timeout=timeout, env=env)
+    except subprocess.TimeoutExpired as e:
+        so = e.stdout.decode(errors='replace') if isinstance(e.stdout, bytes) else (e.stdout or '')
+        r = _Partial(so[:so.rfind('\n') + 1])
     out = r.stdout.split('\n')
     if out and out[-1] == '': out.pop()
     return out, r
 
 
-def run_sharded(binpath, groups, args=(), timeout=3600, env=None, nproc=16):
+def run_sharded(binpath, groups, args=(), timeout=None, env=None, nproc=16):
     """groups: list of lists of lines (each group is self-contained, e.g. one history). Runs them over
     nproc processes, returns list of outputs per group (list of lines)."""
     import concurrent.futures
